@@ -30,6 +30,11 @@ pub fn context_of(model: &BTreeMap<String, Binding>) -> Context {
     for (k, b) in model {
         match b {
             Binding::Var(v) => ctx.set_variable(k, v.to_value()),
+            Binding::Func(id, _) if *id == crate::model::FAILING_FUNC => {
+                // a context function that always fails (the crate's error type is not exported:
+                // borrow one from a failing accessor)
+                ctx.set_func(k, Arc::new(|_| Value::None.bool().map(|_| Value::None)));
+            }
             Binding::Func(_, ret) => {
                 let r = ret.to_value();
                 ctx.set_func(k, Arc::new(move |_| Ok(r.clone())));
